@@ -14,7 +14,7 @@
 
 enum { OK_CTR, OK_PAR };
 enum { PH_ZERO, PH_LIVE, PH_CLEANED, PH_FAILED };
-enum { L_INIT, L_KEY, L_TKEY, L_TWEAK, L_CTR, L_USE, L_USEBIG, L_SWAP, L_CLEANUP, L_KEYSHORT, L_USE0, L_INITFAIL, L_USEDEC, L_KEYBAD };
+enum { L_INIT, L_KEY, L_TKEY, L_TWEAK, L_CTR, L_USE, L_USEBIG, L_SWAP, L_CLEANUP, L_KEYSHORT, L_USE0, L_INITFAIL, L_USEDEC, L_KEYBAD, L_SETBAD };
 
 static int g_mode;               /* 15 or 17 */
 static int g_okind; static Cipher g_c; static int g_be, g_bs;
@@ -54,6 +54,7 @@ static void l_build(void)
         l_ops[l_nops].type = L_USE; l_ops[l_nops++].obj = i;
         if (g_mode == 15) { l_ops[l_nops].type = L_USE0; l_ops[l_nops++].obj = i; }      /* zero-length request: still 0 on a dead object */
         if (g_mode == 17 || i == 0) { l_ops[l_nops].type = L_KEYBAD; l_ops[l_nops++].obj = i; }   /* a key-setting call that must be refused: the object's life cycle goes on as before */
+        if (g_okind == OK_CTR && (g_mode == 17 || i == 0)) { l_ops[l_nops].type = L_SETBAD; l_ops[l_nops++].obj = i; }   /* the other setters with a length that must be refused (round 16: a refusing setter may "tidy up") */
         if (g_okind == OK_PAR && g_c != CK_MANTIS && (g_mode == 17 || i == 0)) { l_ops[l_nops].type = L_USEDEC; l_ops[l_nops++].obj = i; }   /* the decrypt entry point */
         if (g_mode == 17 && g_okind == OK_CTR) { l_ops[l_nops].type = L_USEBIG; l_ops[l_nops++].obj = i; }
         if (g_okind == OK_PAR && g_c == CK_MANTIS) { l_ops[l_nops].type = L_SWAP; l_ops[l_nops++].obj = i; }
@@ -85,7 +86,7 @@ static int l_enabled(int op)
 
 static void l_opname(int op, char *buf, size_t n)
 {
-    static const char *nm[] = {"init", "set_key", "set_tweaked_key", "set_tweak", "set_counter", "use", "use(batch+3)", "swap_modes", "cleanup", "set_key(shortest)", "use(0 bytes)", "init[allocation refused]", "use(decrypt)", "set_key(refused)"};
+    static const char *nm[] = {"init", "set_key", "set_tweaked_key", "set_tweak", "set_counter", "use", "use(batch+3)", "swap_modes", "cleanup", "set_key(shortest)", "use(0 bytes)", "init[allocation refused]", "use(decrypt)", "set_key(refused)", "set_tweak/set_counter/set_tweaked_key(refused lengths)"};
     snprintf(buf, n, "%s(obj%d)", nm[l_ops[op].type], l_ops[op].obj);
 }
 
@@ -196,6 +197,13 @@ static void l_apply(int op, int check)
         if (check && r != 0) l_report("invalid-key-accepted", op, "a key-setting call that must be refused returned %d", r);
         r = -2;
         break;
+    case L_SETBAD: {   /* one byte more than a block for tweak and counter, one byte less than a block for a tweaked key */
+        int r1 = ctr_set_tweak(g_c, &b->h.c, tw, (unsigned)g_bs + 1), r2 = ctr_set_counter(g_c, &b->h.c, in, (unsigned)g_bs + 1);
+        int r3 = g_c == CK_MANTIS ? 0 : ctr_set_tweaked_key(g_c, &b->h.c, KEYS[1], (unsigned)g_bs - 1);
+        if (check && (r1 || r2 || r3)) l_report("invalid-length-accepted", op, "set_tweak / set_counter / set_tweaked_key with a length that must be refused returned %d / %d / %d", r1, r2, r3);
+        r = -2;
+        break;
+    }
     case L_TKEY:
         r = ctr_set_tweaked_key(g_c, &b->h.c, KEYS[1], (unsigned)g_bs * 2);
         if (b->phase == PH_LIVE) b->keyed = 2;
@@ -224,7 +232,8 @@ static void l_apply(int op, int check)
         break;
     case L_CLEANUP:
         if (check && b->phase == PH_LIVE)
-            for (i = 0; i < b->nowned; ++i) { AllocRec *rc = arena_rec(b->owned[i]); size_t k; for (k = 0; k < rc->size; ++k) nonzero_before += rc->ptr[k] != 0; }
+            for (i = 0; i < b->nowned; ++i) { AllocRec *rc = arena_rec(b->owned[i]); size_t k; if (!rc->live) continue;   /* released by an earlier call (its page is unreadable now): judged after the cleanup below */
+                for (k = 0; k < rc->size; ++k) nonzero_before += rc->ptr[k] != 0; }
         if (g_okind == OK_CTR) ctr_cleanup(g_c, &b->h.c); else par_cleanup(g_c, &b->h.p);
         r = -2;
         break;
